@@ -192,6 +192,13 @@ void run_exec(const Execution &ex) {
         fs::create_symlink(real, path);
         path = real;
     }
+    // other ways of naming nothing: a component longer than NAME_MAX, a symbolic link that points at itself
+    std::string absent = ex.cfg.str("absent", "plain");
+    if (kind == "absent" && absent == "long") path = base + "/" + std::string(300, 'n');
+    if (kind == "absent" && absent == "loop") {
+        path = base + "/loop";
+        fs::create_symlink(path, path);
+    }
     if (kind == "dir") fs::create_directory(path);
     else if (kind == "file") {
         std::ofstream o(path, std::ios::binary);
